@@ -97,7 +97,7 @@ class Emit:
         return [(src(c[1]), c[2]) for c in self.ctx if c[0] == "if"]
 
 
-def emissions(fnode, sinks=None):
+def emissions(fnode, sinks=None, strings_only=True):
     """All `<name>.append(x)` / `<name>.add(x)` statements of the generator's own body, in source order,
     with their enclosing if/for context."""
     out = []
@@ -112,6 +112,7 @@ def emissions(fnode, sinks=None):
                     and isinstance(c.func.value, ast.Name)
                     and len(c.args) == 1
                     and (sinks is None or c.func.value.id in sinks)
+                    and (not strings_only or isinstance(c.args[0], (ast.JoinedStr, ast.Constant)))
                 ):
                     out.append(Emit(c, c.args[0], c.func.value.id, list(stack)))
             elif isinstance(st, ast.If):
